@@ -6,6 +6,10 @@
 // of one browser. An in-memory provider (fakeop.go) logs every token request; the application callback, the
 // unauthorized handler and the error handler are monitors as well. The oracle is written from the statement:
 // it knows which cookie values this RP minted for which state (provenance) and never asks the library.
+//
+// Callbacks arrive as GET, as form_post (POST, urlencoded body, optionally to a redirect URI with a query of its
+// own) and as POSTs that carry response parameters in the URL *and* in the body ("two-sets"): the code that is
+// exchanged and the state that matched must then belong to one consistent reading of the request (cbSpec.views).
 package main
 
 import (
@@ -303,7 +307,7 @@ func (c *checker) judge(spec *cbSpec, out *cbOut, logins []*loginRec) {
 	if !cfg.CustomUnauth && out.Status == 401 {
 		run.Count("unauthorized_desc", clipDesc(out.Body))
 	}
-	dim := fmt.Sprintf("%s|%s|pkce=%v|signer=%s|block=%v|%s|%s|%s|%s|%s|err=%v", spec.Part, cfg.Kind, cfg.PKCE, cfg.Signer, cfg.BlockLen > 0, spec.StateCls, spec.PKCECls, spec.QueryCls, spec.Method, spec.CodeCls, spec.ErrorParam)
+	dim := fmt.Sprintf("%s|%s|pkce=%v|signer=%s|block=%v|%s|%s|%s|%s|%s|err=%v", spec.Part, cfg.Kind, cfg.PKCE, cfg.Signer, cfg.BlockLen > 0, spec.StateCls, spec.PKCECls, spec.QueryCls+spec.Shape, spec.Method, spec.CodeCls, spec.ErrorParam)
 	run.Distinct(dim)
 
 	switch zone {
@@ -327,6 +331,46 @@ func (c *checker) judge(spec *cbSpec, out *cbOut, logins []*loginRec) {
 		}
 	case "grey":
 		run.Count("grey", "equivalent-encoding-of-state-cookie:"+spec.StateCls)
+	}
+
+	// state and code belong together: the code that is exchanged must be the code parameter of a reading of the
+	// request whose state parameter is the matching one. (With one parameter set this is the zone rule above; it
+	// decides callbacks that carry parameters in the URL and in a posted body.)
+	if spec.Sets != nil && zone != "refuse" {
+		vs := spec.views()
+		for _, tr := range out.Token {
+			x := tr.get("code")
+			if !spec.carried(x) {
+				continue // counted as grey:other-code below
+			}
+			verdict, by := "unjustified", ""
+			for _, v := range vs {
+				if !slices.Contains(v.Codes, x) {
+					continue
+				}
+				for _, st := range v.States {
+					if allowed[st] {
+						verdict, by = "allowed", v.Name
+					} else if grey[st] && verdict != "allowed" {
+						verdict, by = "grey", v.Name
+					}
+				}
+			}
+			switch verdict {
+			case "allowed":
+				if len(spec.Sets) > 1 {
+					run.Count("post_code_binding", "exchanged code and matching state are one reading of the request: "+by)
+				}
+			case "grey":
+				run.Count("grey", "equivalent-encoding-of-state-cookie:"+spec.StateCls)
+			default:
+				vio("exchange-without-matching-state:state-and-code-from-different-parameter-sets", fmt.Sprintf("the token request carries code %q; no reading of the callback (URL parameters alone; posted form with the URL as fallback per parameter) has both that code and a state equal to the state of a presented cookie minted by this RP: readings %+v", x, vs))
+				return
+			}
+		}
+	}
+	if spec.Shape != "" {
+		c.judgeTwoSets(spec, out, zone, outcome)
 	}
 
 	// PKCE: every token request carries the verifier stored in the pkce cookie presented
@@ -409,6 +453,54 @@ func (c *checker) judge(spec *cbSpec, out *cbOut, logins []*loginRec) {
 		}
 		run.Count("valid_callback_deletes_cookies", fmt.Sprint(deleted))
 		run.SampleKind("valid:"+spec.Part+":"+cfg.Kind, wit)
+	}
+}
+
+// judgeTwoSets records what a two-set callback led to (histogram + mandatory scenarios). It judges nothing itself.
+func (c *checker) judgeTwoSets(spec *cbSpec, out *cbOut, zone, outcome string) {
+	run, cfg := c.run, c.w.cfg
+	run.Count("two_sets", spec.Shape+" zone="+zone+" -> "+outcome)
+	natural := spec.StateCls == "match" && (!cfg.PKCE || spec.PKCECls == "match") && spec.CodeCls == "good"
+	if !natural {
+		return
+	}
+	var u, b paramSet
+	for _, ps := range spec.Sets {
+		if ps.Where == "url" {
+			u = ps
+		} else {
+			b = ps
+		}
+	}
+	m := func(ps paramSet) string { // M | F | -
+		switch {
+		case len(ps.States) == 0:
+			return "-"
+		case ps.States[0] == spec.OwnState:
+			return "M"
+		}
+		return "F"
+	}
+	us, bs := m(u), m(b)
+	exchanged := len(out.Token) > 0
+	ownExchanged := exchanged && out.Token[0].get("code") == spec.Code
+	switch {
+	case us == "M" && bs == "F" && len(b.Codes) > 0 && !exchanged:
+		c.observed("two-sets:url-state-matches:code-beside-foreign-body-state-not-exchanged")
+	case us == "F" && bs == "M" && len(b.Codes) > 0 && ownExchanged && len(out.App) > 0:
+		c.observed("two-sets:body-state-matches:body-code-exchanged")
+	case us == "F" && bs == "M" && len(b.Codes) == 0 && len(u.Codes) > 0:
+		c.observed("two-sets:body-state-matches:only-code-in-url")
+	case (us == "-") != (bs == "-") && (us == "M" || bs == "M") && len(u.Codes)+len(b.Codes) == 1 && ownExchanged && len(out.App) > 0:
+		c.observed("two-sets:one-response-split-over-url-and-body:exchanged")
+	case zone == "refuse" && !exchanged:
+		c.observed("two-sets:no-state-matches:refused")
+	}
+	if us == "-" && bs == "M" && len(u.Other) > 0 && ownExchanged && len(out.App) > 0 {
+		c.observed("two-sets:form-post-to-redirect-uri-with-query:exchanged")
+	}
+	if c.pre == "" {
+		run.SampleKind("two-sets:url="+us+",body="+bs, map[string]any{"config": cfg, "callback": spec, "observed": out})
 	}
 }
 
@@ -557,7 +649,29 @@ func pctAll(s string) string {
 
 var stateClasses = []string{"missing", "otherkeys", "othername-pkce", "othername-minted", "otherlogin", "truncated", "bitflip", "badmac", "garbage", "dup-valid-first", "dup-foreign-first", "wrongname-only"}
 var pkceClasses = []string{"missing", "otherkeys", "othername-state", "othername-minted", "otherlogin", "truncated", "bitflip", "badmac", "garbage"}
-var queryClasses = []string{"otherlogin", "prefix", "suffix", "case", "empty", "absent", "dup-match-first", "dup-match-second", "body-differs", "query-differs", "escaped", "escaped-once", "space-padded"}
+var queryClasses = []string{"otherlogin", "prefix", "suffix", "case", "empty", "absent", "dup-match-first", "dup-match-second", "body-differs", "query-differs", "escaped", "escaped-once", "space-padded", "two-sets", "two-sets", "two-sets"}
+
+// twoSetShapes: a POST callback whose request URL and urlencoded body both carry response parameters. Per place:
+// state M (the state of the presented cookie) | F (a foreign state) | - (no state parameter), and code own (the
+// code issued for this login) | inj (another code the provider would redeem) | - (no code parameter);
+// "x" adds parameters that are not response parameters (a redirect URI with its own query).
+var twoSetShapes = []struct{ uS, uC, bS, bC string }{
+	{"M", "-", "F", "inj"},   // the body is a complete response with a foreign state, the URL shows the cookie's state
+	{"M", "own", "F", "inj"}, // two complete responses, only the URL's matches
+	{"F", "inj", "M", "own"}, // two complete responses, only the body's matches
+	{"F", "inj", "M", "-"},   // the body's state matches, the only code travels in the URL beside a foreign state
+	{"F", "-", "M", "own"},   // (= query-differs)
+	{"M", "-", "-", "own"},   // one response split over both places
+	{"-", "own", "M", "-"},
+	{"F", "-", "-", "inj"}, // split, nothing matches
+	{"-", "inj", "F", "-"},
+	{"F", "own", "F", "inj"},
+	{"M", "own", "M", "own"}, // the same response twice
+	{"M", "inj", "M", "own"}, // both states match, the codes differ
+	{"x", "-", "M", "own"},   // plain form_post to a redirect URI that has a query of its own
+	{"M", "own", "x", "-"},   // POST without response parameters in the body
+	{"M", "own", "-", "-"},   // POST with an empty body
+}
 
 type partB struct {
 	c       *checker
@@ -741,23 +855,63 @@ func (b *partB) build(stateCls, pkceCls, queryCls string) *cbSpec {
 		body.Set("state", qstate)
 		q.Set("state", other)
 		spec.QueryStates = []string{qstate, other}
+	case "two-sets":
+		spec.Method = "POST"
+		spec.ErrorParam = false
+		sh := twoSetShapes[r.IntN(len(twoSetShapes))]
+		foreign := pick(r, other, L1.State, qstate+"x", swapCase("Zz"+qstate))
+		b.codeSeq++
+		inj := fmt.Sprintf("inj-c%d-%d%s", b.c.idx, b.codeSeq, pick(r, "", "", " sp", "&a=b"))
+		if r.IntN(4) > 0 { // mostly a code the provider redeems for this very login, so that a wrong exchange runs to the end
+			w.op.registerCode(inj, pick(r, L0.Challenge, L0.Challenge, L1.Challenge))
+		}
+		fill := func(v url.Values, st, cd string) {
+			switch st {
+			case "M":
+				v.Set("state", qstate)
+				spec.QueryStates = append(spec.QueryStates, qstate)
+			case "F":
+				v.Set("state", foreign)
+				spec.QueryStates = append(spec.QueryStates, foreign)
+			case "x":
+				v.Set("tenant", "a")
+				v.Set("session_state", "zz")
+			}
+			switch cd {
+			case "own":
+				v.Set("code", spec.Code)
+			case "inj":
+				v.Set("code", inj)
+			}
+		}
+		fill(body, sh.bS, sh.bC) // QueryStates: body first
+		fill(q, sh.uS, sh.uC)
+		if len(spec.QueryStates) == 0 {
+			spec.QueryStates = []string{""}
+		}
+		spec.Shape = fmt.Sprintf("url[state=%s code=%s] body[state=%s code=%s]", sh.uS, sh.uC, sh.bS, sh.bC)
 	}
 	params := q
 	if spec.Method == "POST" {
 		params = body
 	}
-	if queryCls != "body-differs" && queryCls != "query-differs" {
-		for _, s := range spec.QueryStates {
-			params.Add("state", s)
+	if queryCls != "two-sets" {
+		if queryCls != "body-differs" && queryCls != "query-differs" {
+			for _, s := range spec.QueryStates {
+				params.Add("state", s)
+			}
 		}
-	}
-	params.Set("code", spec.Code)
-	if spec.ErrorParam {
-		params.Set("error", "access_denied")
-		params.Set("error_description", "user said no")
+		params.Set("code", spec.Code)
+		if spec.ErrorParam {
+			params.Set("error", "access_denied")
+			params.Set("error_description", "user said no")
+		}
 	}
 	if queryCls == "absent" {
 		spec.QueryStates = []string{""} // FormValue semantics: an absent parameter reads as the empty string
+	}
+	if spec.Method == "POST" && queryCls != "two-sets" && queryCls != "body-differs" && queryCls != "query-differs" && r.IntN(4) == 0 {
+		q.Set("tenant", "a") // form_post to a redirect URI that has a query of its own
 	}
 	target := "https://rp.example/cb"
 	if len(q) > 0 {
@@ -766,6 +920,21 @@ func (b *partB) build(stateCls, pkceCls, queryCls string) *cbSpec {
 	spec.Target = target
 	if spec.Method == "POST" {
 		spec.Body = body.Encode()
+	}
+	// the parameter sets as literally sent
+	setOf := func(where string, v url.Values) paramSet {
+		ps := paramSet{Where: where, States: v["state"], Codes: v["code"]}
+		for k := range v {
+			if k != "state" && k != "code" {
+				ps.Other = append(ps.Other, k)
+			}
+		}
+		slices.Sort(ps.Other)
+		return ps
+	}
+	spec.Sets = []paramSet{setOf("url", q)}
+	if spec.Method == "POST" {
+		spec.Sets = append(spec.Sets, setOf("body", body))
 	}
 	spec.Must = stateCls == "match" && queryCls == "match" && (!cfg.PKCE || pkceCls == "match") && spec.CodeCls == "good" && !spec.ErrorParam
 	return spec
@@ -1047,10 +1216,11 @@ func runCase(run *ev.Run, idx int) {
 
 func main() {
 	run := ev.Start("C17", "exploration")
-	run.SetRule("one case = one generated RP configuration (constructor oauth/oidc-discovery × PKCE × JWT-profile signer × cookie keys/options × client data with URL-hostile characters × auth style × handlers) with (B) 16 callbacks over (state cookie class, pkce cookie class, query class, method, code class) built from two logins of this RP and one of an RP with other keys, and (A) every ordering of 2 interleaved logins (even cases) or 8 of the 90 orderings of 3 (odd cases, round robin) through one browser jar; every login and every callback is an evaluation; distinct = distinct vectors (part, constructor, pkce, signer, encrypted, state-cookie class, pkce-cookie class, query class, method, code class, error param) resp. (constructor, pkce, same-state, ordering, position, jar class) of callbacks that were judged")
+	run.SetRule("one case = one generated RP configuration (constructor oauth/oidc-discovery × PKCE × JWT-profile signer × cookie keys/options × client data with URL-hostile characters × auth style × handlers) with (B) 16 callbacks over (state cookie class, pkce cookie class, query class incl. POST callbacks whose URL and urlencoded body both carry response parameters in 15 arrangements of (matching | foreign | no state) x (own | other | no code) per place, method, code class) built from two logins of this RP and one of an RP with other keys, and (A) every ordering of 2 interleaved logins (even cases) or 8 of the 90 orderings of 3 (odd cases, round robin) through one browser jar; every login and every callback is an evaluation; distinct = distinct vectors (part, constructor, pkce, signer, encrypted, state-cookie class, pkce-cookie class, query class, method, code class, error param) resp. (constructor, pkce, same-state, ordering, position, jar class) of callbacks that were judged")
 	run.Assume("the harness learns what a cookie stores by decoding it with gorilla/securecookie under the RP's keys and cookie name; what the RP minted is known by provenance (the Set-Cookie headers it produced), so acceptance is never judged by asking the library",
 		"a mutated cookie value that still decodes to the same stored value (unused base64 bits) is an equivalent encoding: grey",
-		"several state values in one callback (duplicate parameter, body and query): exchanging is permitted if any of them matches; only a callback none of whose state values matches must be refused",
+		"several state values in one callback (duplicate parameter, body and query): only a callback none of whose state values matches must be refused by the unauthorized handler; a duplicate inside one parameter set may be resolved either way",
+		"a POST callback with response parameters in the URL and in a urlencoded body has two consistent readings: the URL parameters alone, or the posted form (each parameter from the body, from the URL only if the body does not carry it - HTTP form semantics; a body carrying everything is the form_post response mode). The state parameter and the code of the callback belong to one reading: a token request for a code the callback carries is a violation unless some reading has that code together with a matching state. Which reading a handler uses, and what it answers when it exchanges nothing, is left open (grey)",
 		"application-supplied URL parameters that override client_id/redirect_uri/scope/state are the application's own doing: URL clauses grey for those configurations",
 		"valid-callback-refused is asserted only for the natural flow: own cookies byte-identical, single matching state, code the fake provider issued for that login's challenge")
 	if run.ReplayCase() >= 0 {
@@ -1061,6 +1231,8 @@ func main() {
 		"valid:oauth", "valid:oidc", "valid:pkce", "valid:jwt-profile", "valid:get", "valid:post", "valid:interleaved",
 		"refused:missing", "refused:otherkeys", "refused:othername", "refused:swapped", "refused:tampered", "refused:query-differs", "refused:other-login",
 		"pkce:verifier-from-cookie", "pkce:refused-without-cookie",
+		"two-sets:url-state-matches:code-beside-foreign-body-state-not-exchanged", "two-sets:body-state-matches:body-code-exchanged", "two-sets:body-state-matches:only-code-in-url",
+		"two-sets:one-response-split-over-url-and-body:exchanged", "two-sets:no-state-matches:refused", "two-sets:form-post-to-redirect-uri-with-query:exchanged",
 		"interleave:overwritten-login-refused", "interleave:all-6-orderings-of-2", "interleave:all-90-orderings-of-3",
 		"concurrent:login-round-overlapped:shared-handler", "concurrent:login-round-overlapped:own-handlers", "concurrent:callback-round-overlapped",
 		"concurrent:authurl:oauth", "concurrent:authurl:oidc", "concurrent:authurl:pkce", "concurrent:valid:pkce", "concurrent:valid:oauth", "concurrent:valid:oidc",
